@@ -517,6 +517,29 @@ class Facts:
         self._wsum = None
         self._cg = None
 
+    def cfg_features(self):
+        """cargo features of this configuration (from the extraction table)"""
+        try:
+            import extract
+            args = extract.CONFIGS.get(self.cfg, {}).get("args", [])
+        except Exception:
+            args = []
+        out = set()
+        for i, a in enumerate(args):
+            if a == "--features" and i + 1 < len(args):
+                out |= set(args[i + 1].split(","))
+        return out
+
+    def cfg_flavour(self):
+        f = self.cfg_features()
+        if self.cfg == "portable1":
+            return "portable1"
+        if "pure" in f:
+            return "pure"
+        if "prefer_intrinsics" in f:
+            return "intrinsics"
+        return "asm"
+
     def fn(self, path):
         f = self.fns.get(path)
         if f is None or not f.has_body:
